@@ -330,9 +330,29 @@ def plumbing(ctx):
     if rr:
         r, rets = rr
         v = r.norm.n(r.interp.argval(rets[0].path, rets[0].ret)) if len(rets) == 1 else None
-        s = repr(v)
-        if not ("KeyText<V, K> as FromStr>::from_str" in s and "and_then" in s):
-            probs.append("Key::from_str is not KeyText::from_str(s).and_then(try_into): " + fmt_n(v)[:200])
+        # the whole input is parsed as a KeyText, and the result is the KeyText -> Key conversion of that parse's Ok value
+        def is_parse(t):
+            return (isinstance(t, tuple) and t and t[0] == "call" and t[2] == (("in", "s"),)
+                    and (t[1].endswith("KeyText<V, K> as FromStr>::from_str") or re.search(r"<impl str>::parse::<KeyText<V, K>>$", t[1])))
+        okf = False
+        if isinstance(v, tuple) and v and v[0] == "call":
+            if v[1] == "Result::and_then" and is_parse(v[2][0]):
+                clo = r.interp.argval(rets[0].path, rets[0].ret)
+                raw = rets[0].ret
+                # the closure / fn item handed to and_then must itself be the conversion
+                callee = raw[2][1] if isinstance(raw, tuple) and raw[0] == "call" and len(raw[2]) == 2 else None
+                names = []
+                if isinstance(callee, tuple) and callee and callee[0] == "agg" and callee[1].startswith("closure:"):
+                    cf = core.fns.get(callee[1][len("closure:"):])
+                    names = [b["term"]["callee"].get("path", "") for b in (cf["body"]["blocks"] if cf else []) if b["term"]["k"] == "call"]
+                elif isinstance(callee, tuple) and callee and callee[0] == "fn":
+                    names = [callee[1]]
+                okf = len(names) == 1 and re.search(r"(TryInto::try_into|TryFrom::try_from|try_from|try_into)$", names[0]) is not None
+            elif re.search(r"TryFrom<KeyText<V, K>> for Key<V, K>>::try_from$|KeyText<V, K> as TryInto<Key<V, K>>>::try_into$", v[1]) \
+                    and len(v[2]) == 1 and isinstance(v[2][0], tuple) and v[2][0][0] == "ok" and is_parse(v[2][0][1]):
+                okf = True
+        if not okf:
+            probs.append("Key::from_str is not `parse the whole input as KeyText, then convert its Ok value`: " + fmt_n(v)[:200])
     ctx.add("R08.6", "C08/plumbing/Key-from_str", not probs, "; ".join(probs), site_of(f) if f else None)
     f, rr, probs = single("paserk::plaintext::<impl core::convert::TryFrom<paserk::plaintext::KeyText<V, K>> for key::Key<V, K>>::try_from", inline=False)
     if rr:
